@@ -72,6 +72,9 @@ def _catalogue():
         "\\'Ee",
         "AA {cc}",
         "AA 1b",
+        "{{AA bb}}",
+        "{{AA} {bb}} CC",
+        "AA\xa0 bb",  # a no-break space is an ordinary character of a word
     ]
     return out
 
